@@ -77,6 +77,11 @@ CHECKS['C11'] = dict(
     text='About 4000 table probes (every native x normal/boundary/invalid arguments, wrong arity and kinds, multi-byte strings, callbacks that print or raise) plus seeded random iterator pipelines (shared sources, interleaved advancing, mutation in between) and stateful operation sequences on collections are run on debug and release and compared line by line and by error class with python models of sequence/map/stream semantics that follow the left-to-right lazy evaluation order.',
     note=_MODEL_NOTE + ' regexp/io/env/math modules are covered for crash freedom only (C16).', ref='DESIGN.md §2 C11')
 
+CHECKS['C20'] = dict(
+    technique='allocator-level layout monitor (global allocator wrapper), heap snapshot hook after every collection (accounting conservation), per-object size check against allocator records, idempotent second full collection, steady-state growth monitor',
+    text='Every corpus program runs under collection schedules with a tracking global allocator: a dealloc whose layout differs from the allocation is reported; a hook snapshots the allocator after every collection and the checker requires bytes_allocated == sum of reported sizes of all held objects and next_gc == 2 x that; every reported object size is compared with the real block size; the intern invariant is checked; two forced full collections at exit must free nothing the second time. Steady-state loops (one per object kind and error path) run at N and 4N iterations: collector bytes, real live bytes and temporary roots must not grow.',
+    note='"Exactly the reachable objects" is observed as no-growth + idempotence; the collector scans whole stack vectors, so slots above the stack top retain their last values (bounded slack). Known findings D32/D33 are keyed on the loop that fails.', ref='DESIGN.md §2 C20')
+
 PENDING = {}
 
 
